@@ -305,47 +305,7 @@ func C11(p *ir.Program, r *report.R) {
 	}
 
 	// ---- canonical maps -----------------------------------------------------------------
-	{
-		mw := p.Func("libs/ser", "makeMapWriter")
-		var cl *ssa.Function
-		for _, a := range mw.AnonFuncs {
-			cl = a
-		}
-		if cl == nil {
-			r.Undecided("K7", "ser.makeMapWriter/closure", p.Pos(mw.Pos()), "writer closure not found")
-		} else {
-			keys := firstCall(cl, "reflect.Value.MapKeys")
-			srt := firstCall(cl, "sort.Sort")
-			emits := ir.Calls(cl, "ser.writeByteArray")
-			if keys == nil || srt == nil || len(emits) == 0 {
-				r.Undecided("K7", "ser.makeMapWriter/shape", p.Pos(cl.Pos()), "MapKeys / sort.Sort / writeByteArray not found")
-			} else {
-				for _, e := range emits {
-					found, _, tr := ir.FindPath(ir.PathQuery{From: ir.At(keys), Target: func(in ssa.Instruction) bool { return in == e }, Avoid: func(in ssa.Instruction) bool { return in == srt }})
-					r.Check("K7", "ser.makeMapWriter/sorted-before-emit", p.InstrPos(e), !found, fmt.Sprintf("every path from MapKeys() to the emission of a key passes sort.Sort; offending %v", tr))
-				}
-				r.Check("K7", "ser.makeMapWriter/sorts-the-emitted-slice", p.InstrPos(srt), strings.HasPrefix(Arg(srt, 0), "make") && strings.Contains(Arg(srt, 0), "sortableMapKey"), "the slice that is sorted is the one emitted: "+Arg(srt, 0))
-			}
-			// the count prefix is the map length
-			okLen := false
-			for _, call := range ir.Calls(cl, "ser.writeInt") {
-				if strings.Contains(Arg(call, 0), "reflect.Value.Len(val)") {
-					okLen = true
-				}
-			}
-			r.Check("K5", "ser.makeMapWriter/count-prefix", p.Pos(cl.Pos()), okLen, "the writer emits the entry count the decoder reads")
-		}
-		ls := p.Func("libs/ser", "sortableMapKey.Less")
-		okL := false
-		for _, rt := range ir.Returns(ls) {
-			for _, a := range ir.CondAtoms(rt.Results[0], true) {
-				if ir.Match("lt(bytes.Compare(sm[i].key,sm[j].key),0)", a) || ir.Match("eq(bytes.Compare(sm[i].key,sm[j].key),-1)", a) {
-					okL = true
-				}
-			}
-		}
-		r.Check("K6", "ser.sortableMapKey.Less/strict-byte-order", p.Pos(ls.Pos()), okL, "Less is the strict byte order of the keys")
-	}
+	serCanonicalMaps(p, r)
 
 	// ---- bounded allocation -----------------------------------------------------------------
 	{
@@ -532,3 +492,47 @@ func typeShortT(t types.Type) string {
 }
 
 var _ = report.Discharged
+
+// serCanonicalMaps: the ser map writer emits keys in strict byte order on every
+// path (shared by C05 and C11).
+func serCanonicalMaps(p *ir.Program, r *report.R) {
+	mw := p.Func("libs/ser", "makeMapWriter")
+	var cl *ssa.Function
+	for _, a := range mw.AnonFuncs {
+		cl = a
+	}
+	if cl == nil {
+		r.Undecided("K7", "ser.makeMapWriter/closure", p.Pos(mw.Pos()), "writer closure not found")
+	} else {
+		keys := firstCall(cl, "reflect.Value.MapKeys")
+		srt := firstCall(cl, "sort.Sort")
+		emits := ir.Calls(cl, "ser.writeByteArray")
+		if keys == nil || srt == nil || len(emits) == 0 {
+			r.Undecided("K7", "ser.makeMapWriter/shape", p.Pos(cl.Pos()), "MapKeys / sort.Sort / writeByteArray not found")
+		} else {
+			for _, e := range emits {
+				found, _, tr := ir.FindPath(ir.PathQuery{From: ir.At(keys), Target: func(in ssa.Instruction) bool { return in == e }, Avoid: func(in ssa.Instruction) bool { return in == srt }})
+				r.Check("K7", "ser.makeMapWriter/sorted-before-emit", p.InstrPos(e), !found, fmt.Sprintf("every path from MapKeys() to the emission of a key passes sort.Sort; offending %v", tr))
+			}
+			r.Check("K7", "ser.makeMapWriter/sorts-the-emitted-slice", p.InstrPos(srt), strings.HasPrefix(Arg(srt, 0), "make") && strings.Contains(Arg(srt, 0), "sortableMapKey"), "the slice that is sorted is the one emitted: "+Arg(srt, 0))
+		}
+		// the count prefix is the map length
+		okLen := false
+		for _, call := range ir.Calls(cl, "ser.writeInt") {
+			if strings.Contains(Arg(call, 0), "reflect.Value.Len(val)") {
+				okLen = true
+			}
+		}
+		r.Check("K5", "ser.makeMapWriter/count-prefix", p.Pos(cl.Pos()), okLen, "the writer emits the entry count the decoder reads")
+	}
+	ls := p.Func("libs/ser", "sortableMapKey.Less")
+	okL := false
+	for _, rt := range ir.Returns(ls) {
+		for _, a := range ir.CondAtoms(rt.Results[0], true) {
+			if ir.Match("lt(bytes.Compare(sm[i].key,sm[j].key),0)", a) || ir.Match("eq(bytes.Compare(sm[i].key,sm[j].key),-1)", a) {
+				okL = true
+			}
+		}
+	}
+	r.Check("K6", "ser.sortableMapKey.Less/strict-byte-order", p.Pos(ls.Pos()), okL, "Less is the strict byte order of the keys")
+}
